@@ -232,12 +232,33 @@ Fixpoint check_steps (k : Z) (s : fsys * obj) (d0 : doc) (done : list op) (todo 
       else (16 * k + (if m then 0 else 1) + (if sp then 0 else 2))%Z
   end.
 
-Inductive case := CHist (d0 : doc) (p0 : path) (raw : bool) (steps : list (op * obs)).
+(* histories that start from a hand-written TEXT file (e.g. char columns of undeclared length, which the writer never
+   emits and Render.sem does not describe): only the model is compared in Coq; the history content is checked by the
+   harness (Python twin of the specification) *)
+Definition init_text (text : bytes) (p0 : path) (raw : bool) : option (fsys * obj) :=
+  match parse text with Some p => Some ([(p0, text)], mkobj p0 text raw p) | None => None end.
+Fixpoint check_steps_m (k : Z) (s : fsys * obj) (todo : list (op * obs)) : Z :=
+  match todo with
+  | [] => 0%Z
+  | (x, ob) :: todo' =>
+      let '(fs, o, out) := step s x in
+      let m := Z.eqb (out_code out) (ob_out ob) && beq (o_file o) (ob_file ob)
+               && opt_eqb beq (fs_get fs (o_file o)) (ob_bytes ob) && state_agrees (o_state o) (ob_state ob) in
+      if m then check_steps_m (k + 1) (fs, o) todo' else (16 * k + 1)%Z
+  end.
+
+Inductive case := CHist (d0 : doc) (p0 : path) (raw : bool) (steps : list (op * obs))
+                | CText (text : bytes) (p0 : path) (raw : bool) (init : ostate) (steps : list (op * obs)).
 Definition run_case (c : case) : Z :=
   match c with
   | CHist d0 p0 raw steps =>
       match init_state d0 p0 raw with
       | Some s => check_steps 1 s d0 [] steps
+      | None => 8%Z
+      end
+  | CText text p0 raw init steps =>
+      match init_text text p0 raw with
+      | Some s => if state_agrees (o_state (snd s)) init then check_steps_m 1 s steps else 9%Z
       | None => 8%Z
       end
   end.
